@@ -533,6 +533,12 @@ func findPrefixesCore(node *RegexNode, res *[]*bytes.Buffer, ignoreCase bool) bo
 		// As with One and loops, set loops are handled the same as sets up to the min iteration limit.
 		case NtSet, NtSetloop, NtSetlazy, NtSetloopatomic:
 
+			// GetSetChars lists the characters of the set's ranges; for a negated set those are the
+			// characters that do NOT match, so no finite list of prefixes can be derived from it.
+			if node.Set.IsNegated() {
+				return false
+			}
+
 			setChars := node.Set.GetSetChars(maxPrefixes)
 
 			if len(setChars) == 0 {
